@@ -35,6 +35,23 @@ def build(key, variant, i):
     qual = key.split(':')[1]
     env = {'iso_value': iso_value, 'iso_fields_ok': iso_fields_ok, 'zabs': abs, 'delta_norm': True,
            'micros': lambda td: td // datetime.timedelta(microseconds=1)}
+    if qual == 'FixedOffsetTimeZone.__init__':
+        from dashlive.utils.timezone import FixedOffsetTimeZone
+        h, m = int(i.get('tz_h', 0)), int(i.get('tz_m', 0))
+        if max(h, m) > 10**6:
+            raise ValueError('offset digits too large for a native timedelta')
+        text = 'UTC+1' if variant == 'not-an-offset' else f"{'-' if variant == 'west' else '+'}{h:02d}:{m:02d}"
+        holder = {}
+
+        class View:
+            """the two private fields under the names the source text uses (Python mangles them inside the class)"""
+            def __getattr__(self, name):
+                return getattr(holder['tz'], '_FixedOffsetTimeZone' + name)
+
+        def call():
+            holder['tz'] = FixedOffsetTimeZone(text)
+        env.update(tz_h=h, tz_m=m, delta_str=text, self=View(), td_us=lambda td: td // datetime.timedelta(microseconds=1))
+        return {'env': env, 'old_env': dict(env), 'call': call}
     if qual == 'toIsoDuration':
         if variant == 'float':
             x = float(Fraction(i['secs'])) if not isinstance(i['secs'], (int, float)) else float(i['secs'])
